@@ -24,9 +24,17 @@ for k in sorted(os.listdir(out)):
     rc, o = sh("git apply %s" % os.path.join(d, "patch.diff"), cwd=WT)
     if rc != 0:
         print(k, "patch does not apply:", o[-300:]); continue
-    rc, o = sh("cargo test --offline --lib 2>&1 | grep -E '^test result'", cwd=WT)
-    ran.append("with patch: cargo test --offline --lib -> " + o.strip())
-    ok_suite = "242 passed; 0 failed" in o
+    ok_suite = False
+    for attempt in range(4):
+        # two randomised stress tests of the repository (geom3::align3 round trips) fail about once in 15 runs on the
+        # UNCHANGED tree; a run that fails only there is repeated
+        rc, o = sh("cargo test --offline --lib 2>&1 | grep -E '^test result|^test .* FAILED'", cwd=WT)
+        ran.append("with patch: cargo test --offline --lib -> " + o.strip())
+        if "242 passed; 0 failed" in o:
+            ok_suite = True
+            break
+        if not re.search(r"align3::.*stress", o):
+            break
     os.makedirs(os.path.join(WT, "tests"), exist_ok=True)
     tname = "seed_%s_%s" % (prop, k)
     shutil.copy(os.path.join(d, "demo.rs"), os.path.join(WT, "tests", tname + ".rs"))
